@@ -909,19 +909,22 @@ func (x *Exec) appendOp(fr *Frame, st *State, c *ssa.CallCommon, args []Val, pos
 	var Afit string
 	Anew := vc.freshConst("app_new", fmt.Sprintf("(Array Int %s)", esort))
 	q := vc.fresh("j")
-	vc.assume(st.pc, fmt.Sprintf("(forall ((%s Int)) (! (=> (and (<= 0 %s) (< %s %s)) (= (select %s %s) (select %s (+ (s-off %s) %s)))) :pattern ((select %s %s))))", q, q, q, ls, Anew, q, As, s, q, Anew, q))
+	// source and destination cells are written with eidx(off, i), the form in
+	// which contracts and invariants read slice elements (pattern matching)
+	vc.assume(st.pc, fmt.Sprintf("(forall ((%s Int)) (! (=> (and (<= 0 %s) (< %s %s)) (= (select %s %s) (select %s (eidx (s-off %s) %s)))) :pattern ((select %s %s))))", q, q, q, ls, Anew, q, As, s, q, Anew, q))
 	if nKnown >= 0 {
 		Afit = As
 		for j := 0; j < nKnown; j++ {
-			v := fmt.Sprintf("(select %s (+ (s-off %s) %d))", At, t, j)
+			v := fmt.Sprintf("(select %s (eidx (s-off %s) %d))", At, t, j)
 			Afit = fmt.Sprintf("(store %s (+ (s-off %s) %s %d) %s)", Afit, s, ls, j, v)
 			vc.assume(st.pc, fmt.Sprintf("(= (select %s (+ %s %d)) %s)", Anew, ls, j, v))
 		}
 	} else {
 		Afit = vc.freshConst("app_fit", fmt.Sprintf("(Array Int %s)", esort))
-		vc.assume(st.pc, fmt.Sprintf("(forall ((%s Int)) (! (= (select %s %s) (ite (and (<= (+ (s-off %s) %s) %s) (< %s (+ (s-off %s) %s))) (select %s (+ (s-off %s) (- %s (+ (s-off %s) %s)))) (select %s %s))) :pattern ((select %s %s))))",
+		vc.assume(st.pc, fmt.Sprintf("(forall ((%s Int)) (! (= (select %s %s) (ite (and (<= (+ (s-off %s) %s) %s) (< %s (+ (s-off %s) %s))) (select %s (eidx (s-off %s) (- %s (+ (s-off %s) %s)))) (select %s %s))) :pattern ((select %s %s))))",
 			q, Afit, q, s, ls, q, q, s, n, At, t, q, s, ls, As, q, Afit, q))
-		vc.assume(st.pc, fmt.Sprintf("(forall ((%s Int)) (! (=> (and (<= 0 %s) (< %s %s)) (= (select %s (+ %s %s)) (select %s (+ (s-off %s) %s)))) :pattern ((select %s (+ %s %s)))))", q, q, q, lt, Anew, ls, q, At, t, q, Anew, ls, q))
+		// appended part, by absolute index (the pattern matches every read of the new block)
+		vc.assume(st.pc, fmt.Sprintf("(forall ((%s Int)) (! (=> (and (<= %s %s) (< %s %s)) (= (select %s %s) (select %s (eidx (s-off %s) (- %s %s))))) :pattern ((select %s %s))))", q, ls, q, q, n, Anew, q, At, t, q, ls, Anew, q))
 	}
 	st.heap[k] = vc.freshDef("h_app", vc.heapSorts[k], fmt.Sprintf("(ite %s (store %s (s-arr %s) %s) (store %s %s %s))", fits, E, s, Afit, E, newID, Anew))
 	return Val{T: r}
